@@ -754,6 +754,9 @@ def run(ctx):
         ctx.notes.append('model driver unavailable: oracle only')
     if len(ctx.violations) < 20:
         run_messages(ctx, B, 150 if quick else 2500)
+    if len(ctx.violations) < 20:
+        # families of message classes declared by inheritance, every order of first use (generator shared with C01)
+        run_families(ctx, B, 60 if quick else 1500)
 
 
 def message_layout_case(ctx, B, style, defs, k, v, tail, iseed, v2, lines, expect):
@@ -830,6 +833,87 @@ def run_messages(ctx, B, n_cases):
     ask_messages(ctx, lines, expect)
 
 
+# ------------------------------------------------------------------ message classes declared by inheritance (several alive, order of use)
+def family_layout_history(B, fam, hist):
+    """the layout clause on every use of a history over freshly built classes: (step, failure) or None, and per step
+    (bytes produced, actual record value, consumed, decoded class index, decoded value)"""
+    try:
+        base, classes, _ = bc.build_family(B, fam)
+    except Exception as e:  # noqa
+        return (-1, f'defining the message classes raised {err_name(e)}'), []
+    obs = []
+    for i, st in enumerate(hist):
+        k, tail = st['k'], bytes.fromhex(st.get('tail', ''))
+        body, ind = bc.family_body(fam, k), fam['defs'][k]['ind']
+        who = f'class {k}' + (f' (derived from class {fam["defs"][k]["parent"]})' if fam['defs'][k]['parent'] is not None else '')
+        try:
+            msg = classes[k]()
+            rec = B.from_val(body, st['val'], typed=True)
+            for name in list(rec.values):
+                setattr(msg, name, rec.values[name])
+            actual = bc.to_val(body, msg.record)
+            ref = bytes([ind]) + ref_layout(body, actual)
+            if st['how'] == 'enc':
+                n, b = bc.guarded_call(msg.to_bytes)
+                if bytes(b) != ref or n != len(ref):
+                    return (i, f'{who}, message id {ind}: bytes differ from [message-type byte] + documented layout of its own fields: '
+                               f'{bytes(b)[:16].hex()} vs {ref[:16].hex()}'), obs
+            m, dmsg = bc.guarded_call(lambda: base.from_bytes(ref + tail))
+            if type(dmsg) is not classes[k] or m != len(ref) or bc.reads_differ(body, msg.record, dmsg.record):
+                return (i, f'{who}, message id {ind}: the documented layout does not decode to the message'), obs
+            n2, b2 = bc.guarded_call(dmsg.to_bytes)
+            if bytes(b2) != ref or n2 != len(ref):
+                return (i, f'{who}, message id {ind}: the decoded message does not encode the documented layout: '
+                           f'{bytes(b2)[:16].hex()} vs {ref[:16].hex()}'), obs
+            obs.append((ref, actual, m, classes.index(type(dmsg)), sx(bc.to_val(body, dmsg.record))))
+        except Exception as e:  # noqa
+            return (i, f'{who}: layout check raised {err_name(e)}: {e!s:.80}'), obs
+    return None, obs
+
+
+def check_family_layout(ctx, B, fam, hist, label, lines, expect):
+    rep = bc.family_replay_dict(fam, hist, 'msg-family-layout')
+    ctx.case(bc.short(f'family {label} {fam["style"]} {[(d["ind"], d["parent"], d["mode"]) for d in fam["defs"]]} '
+                      f'{[(st["k"], st["how"]) for st in hist]} {sx(hist[0]["val"]) if hist else ""}'), nontrivial=True, sample_every=41)
+    ctx.count('family:' + label)
+    bad, obs = family_layout_history(B, fam, hist)
+    if bad:
+        if len(ctx.violations) < 3:
+            f2, h2 = bc.shrink_family(B, fam, hist[:bad[0] + 1], lambda f, h: family_layout_history(B, f, h)[0] is not None)
+            b2 = family_layout_history(B, f2, h2)[0]
+            if b2:
+                fam, hist, bad = f2, h2, b2
+        uses = ' → '.join(f'{"decode" if st["how"] == "dec" else "encode"} class {st["k"]}' for st in hist[:bad[0] + 1])
+        ctx.violation(f'message classes declared by inheritance, used in the order [{uses}]: {bad[1]}',
+                      bc.family_replay_dict(fam, hist, 'msg-family-layout'))
+        return
+    reg = sx(bc.family_reg(fam))
+    for st, (ref, actual, m, dk, dval) in zip(hist, obs):
+        lines.append(f'bin.msg.layout {fam["defs"][st["k"]]["ind"]} {sx(bc.family_body(fam, st["k"])[1:])} {sx(actual)}')
+        expect.append((sx(ref), rep))
+        lines.append(f'bin.msg.dec {reg} {sx(ref + bytes.fromhex(st.get("tail", "")))}')
+        expect.append((f'ok {m} {dk} {dval}', rep))
+
+
+def run_families(ctx, B, n_fam):
+    rng = ctx.rng
+    lines, expect = [], []
+    cdir = os.path.join(VERIF, 'corpus', 'C01')
+    if os.path.isdir(cdir):
+        for f in sorted(os.listdir(cdir)):
+            c = json.load(open(os.path.join(cdir, f)))
+            if c.get('kind') == 'msg-family':
+                fam, hist = bc.family_from_replay(c)
+                check_family_layout(ctx, B, fam, hist, 'corpus', lines, expect)
+    for _ in range(n_fam):
+        if len(ctx.violations) >= 20:
+            break
+        fam = bc.gen_family(rng)
+        for label, order in bc.family_orders(rng, fam):
+            check_family_layout(ctx, B, fam, [bc.gen_family_step(rng, fam, k) for k in order], label, lines, expect)
+    ask_messages(ctx, lines, expect)
+
+
 def replay(ctx, path):
     bc.reset_lib()
     bc.lib()
@@ -856,6 +940,15 @@ def replay(ctx, path):
                             rep.get('iseed', 0), bc.parse_val(rep['val2']) if 'val2' in rep else None, lines, expect)
         for ln, (g, _) in zip(lines, expect):
             print('implementation:', bc.short(g, 200), ' <-', bc.short(ln, 120))
+        ask_messages(ctx, lines, expect)
+        return
+    if rep.get('kind') == 'msg-family-layout':
+        fam, hist = bc.family_from_replay(rep)
+        lines, expect = [], []
+        check_family_layout(ctx, B, fam, hist, 'replay', lines, expect)
+        print('family:', [(j, d['ind'], d['parent'], d['mode'], sx(bc.family_body(fam, j))[:100]) for j, d in enumerate(fam['defs'])])
+        print('history:', [(st['k'], st['how'], sx(st['val'])[:80]) for st in hist])
+        print('oracle:', family_layout_history(B, fam, hist)[0] or 'holds')
         ask_messages(ctx, lines, expect)
         return
     if rep.get('kind') == 'raw-decode':
